@@ -61,6 +61,13 @@ def run(R, job):
         else:
             out.append(("T", str(x)))
 
+    for num in (0, 7, -3, 2.5, 2.0, 1234567.25, 3.14159265, 1e21, 1e-7, True):
+        checked += 1
+        for how, s2 in (("get_html_string", core.Tag("td", num).get_html_string()), ("str", str(core.Tag("td", "a", num, _add_ws=False)))):
+            p0 = P(); p0.feed(s2); p0.close()
+            texts = "".join(e[1] for e in p0.ev if e[0] == "T")
+            if str(num) not in texts:
+                fails.append({"input": f"Tag('td', {num!r}) via {how}", "observed": s2, "expected": "text run " + str(num)})
     for _ in range(n):
         t = tree(4)
         if not isinstance(t, core.Tag):
